@@ -173,6 +173,15 @@ def make_case(family, i, rng, tier):
                                'kind': rng.choice(['eintr', 'eagain',
                                                    'enobufs', 'timeout']),
                                'partial': rng.choice([1, 3, 7])}
+    if family == 'seeded' and rng.random() < 0.1:
+        # the same keyword(s) again and again with values that compare equal
+        # but are different JSON values (1, True, 1.0; 0, False, 0.0, -0.0)
+        vals = [1, True, 1.0, 0, False, 0.0, -0.0, '1', None]
+        rng.shuffle(vals)
+        batches.setdefault('ready', [])
+        batches['ready'] = list(batches['ready']) + [
+            {'op': 'send_json', 'json': json.dumps({'value': v, 'k': 'same'}),
+             'kwargs': True} for v in vals[:rng.choice([2, 4, 9])]]
     case['fold'] = rng.choice([None, None, ' ', '\t'])
     if family == 'seeded' and not case.get('write_fault') and \
             rng.random() < 0.12:
